@@ -109,6 +109,11 @@ IntVec3Class(raw) == LET w == Tokens(Trim(raw), VecSeps)  c == IntVecClass(raw) 
   IF c = "invalid" THEN "invalid"
   ELSE IF Len(w) # 3 THEN (IF CommaOdd(raw) /\ Len(w) = 0 THEN "invalid" ELSE "invalid")
   ELSE c
+\* as<std::vector<std::string>>: the words themselves; never an error
+StrVecVal(raw) == Tokens(Trim(raw), VecSeps)
 FloatVecClass(raw) == LET w == Tokens(Trim(raw), VecSeps)  cl == {FloatClass(w[k]) : k \in 1..Len(w)} IN
   IF "invalid" \in cl THEN "invalid" ELSE IF CommaOdd(raw) \/ "unspec" \in cl THEN "unspec" ELSE "valid"
+\* Eigen::Vector3d: exactly three float words
+FloatVec3Class(raw) == LET w == Tokens(Trim(raw), VecSeps)  c == FloatVecClass(raw) IN
+  IF c = "invalid" \/ Len(w) # 3 THEN "invalid" ELSE c
 =============================================================================
